@@ -14,7 +14,7 @@ class SwapPartitionHandler(CurrentTokenBaseHandler):
     def handle(self, token: Token, holder: SubQueryLineageHolder) -> None:
         if (
             isinstance(token, Function)
-            and token.get_name().lower() == "swap_partitions_between_tables"
+            and (token.get_name() or "").lower() == "swap_partitions_between_tables"
         ):
             identifiers = [
                 identifier
